@@ -514,4 +514,6 @@ WITNESSES = [
      "old": "\t\t\tuint16_t sig_len = htons(tmp_sig->sig_len);", "new": "\t\t\tuint16_t sig_len = tmp_sig->sig_len;"},
     {"id": "C11.w12-verify-with-wrong-digest-length", "rule": "C11.R6", "file": BU,
      "old": "\tstatus = ECDSA_verify(0, hash, SHA256_DIGEST_LENGTH, sig->signature, sig->sig_len, pub_key);", "new": "\tstatus = ECDSA_verify(0, hash, SKI_SIZE, sig->signature, sig->sig_len, pub_key);"},
+    {"id": "C11.w-key-check-looks-up-the-first-ski-only", "rule": "C11.R5", "file": BU,
+     "old": "spki_table_search_by_ski(table, (uint8_t *)curr->ski, &tmp_key, &router_keys_len);", "new": "spki_table_search_by_ski(table, (uint8_t *)sig_segs->ski, &tmp_key, &router_keys_len);"},
 ]
